@@ -5,7 +5,7 @@
 (***************************************************************************)
 EXTENDS Store
 
-ListOf(d, k) == IF Has(d, k) THEN d[k].l ELSE <<>>
+ListOf(d, k) == IF Has(d, k) /\ d[k].ty = "list" THEN d[k].l ELSE <<>>
 PutList(d, k, l) == IF l = <<>> THEN Del(d, k) ELSE Put(d, k, VList(l, ExpOf(d, k)))
 
 Take(l, n) == SubSeq(l, 1, Min2(n, Len(l)))
